@@ -216,7 +216,19 @@ class Matcher:
             self.add("op_result", n, expected=evals, nb=nb, actual=actual)
 
     def check_sequence(self, n, tag, inst, exp, seg):
-        stray = [r for r in seg if r["k"] == "cb+" and r["i"] != tag and r["e"] == n]
+        xtags = set()
+
+        def _collect(execs):
+            for ex in execs:
+                for it in ex["items"]:
+                    for m_ in it["members"]:
+                        for xn in m_.get("xnested") or []:
+                            xtags.add(xn["inst"])
+                            _collect(xn["execs"])
+                        _collect(m_.get("nested") or [])
+
+        _collect(exp["execs"])
+        stray = [r for r in seg if r["k"] == "cb+" and r["i"] != tag and r["e"] == n and r["i"] not in xtags]
         if stray:
             self.add("cross_instance", n, op_inst=tag, cb=stray[0]["c"], other=stray[0]["i"])
         cbs = [r for r in seg if r["k"] == "cb+" and r["i"] == tag]
@@ -232,7 +244,8 @@ class Matcher:
         for r in cbs:
             if r.get("p") in qs:
                 kids.setdefault(r["p"], []).append(r)
-        ctx = {"n": n, "tag": tag, "inst": inst, "ends": ends, "ns": ns, "nsend": nsend, "kids": kids}
+        ctx = {"n": n, "tag": tag, "inst": inst, "ends": ends, "ns": ns, "nsend": nsend, "kids": kids,
+               "seg": seg}
         self.walk(ctx, top, exp["execs"], level=0)
         # stray records of other instances inside this op are judged by the campaigns that care
         self.stats["execs"] += len(exp["execs"])
@@ -420,6 +433,31 @@ class Matcher:
             self.walk(ctx, kids, mem["nested"], level + 1)
         elif kids:
             self.add("seq.nested_inside", n, cb=r["c"], ran=[k["c"] for k in kids][:6])
+        # events sent to another, independent machine from inside this callback: that machine
+        # processes them then and there
+        if mem.get("xnested"):
+            end_q = (ctx["ends"].get(r["q"]) or {}).get("q", 1 << 60)
+            xsent = [a for a in ctx["ns"].get(r["q"], []) if a.get("to")]
+            for xn, a in zip(mem["xnested"], xsent):
+                btag = xn["inst"]
+                e2 = ctx["nsend"].get(a["q"])
+                hi = e2["q"] if e2 else end_q
+                recs = [x for x in ctx["seg"] if x["k"] == "cb+" and x["i"] == btag and a["q"] < x["q"] < hi]
+                qs = {x["q"] for x in recs}
+                top = [x for x in recs if x.get("p") not in qs]
+                kids2 = {}
+                for x in recs:
+                    if x.get("p") in qs:
+                        kids2.setdefault(x["p"], []).append(x)
+                binst = self.ref.insts.get(btag)
+                if binst is not None:
+                    if e2 is not None and e2["out"][0] == "ret" and xn.get("state") is not None:
+                        want = _encv(binst.rp.value_of.get(xn["state"]))
+                        if canon(e2.get("st")) != canon(want):
+                            self.add("x_state", n, to=btag, event=a["ev"], expected=xn["state"],
+                                     actual=e2.get("st"), sent_from=r["c"])
+                    ctx2 = dict(ctx, tag=btag, inst=binst, kids=kids2)
+                    self.walk(ctx2, top, xn["execs"], level + 1)
         # nested send return values
         acts = ctx["ns"].get(r["q"], [])
         exps = mem.get("nsret", [])
